@@ -12,7 +12,8 @@ use ruma_common::{
 use ruma_macros::EventContent;
 use serde::{
     de::{Deserializer, Error},
-    Deserialize, Serialize,
+    ser::SerializeStruct,
+    Deserialize, Serialize, Serializer,
 };
 use serde_json::{value::RawValue as RawJsonValue, Value as JsonValue};
 
@@ -112,8 +113,18 @@ pub enum JoinRule {
     Public,
 
     #[doc(hidden)]
-    #[serde(skip_serializing)]
+    #[serde(untagged, serialize_with = "serialize_custom_join_rule")]
     _Custom(PrivOwnedStr),
+}
+
+/// Serialize a custom join rule as `{ "join_rule": "<rule>" }`, like the known unit variants.
+fn serialize_custom_join_rule<S>(rule: &PrivOwnedStr, serializer: S) -> Result<S::Ok, S::Error>
+where
+    S: Serializer,
+{
+    let mut st = serializer.serialize_struct("JoinRule", 1)?;
+    st.serialize_field("join_rule", &rule.0)?;
+    st.end()
 }
 
 impl JoinRule {
@@ -353,6 +364,14 @@ mod tests {
             restricted.allow,
             &[AllowRule::room_membership(owned_room_id!("!mods:example.org"))]
         );
+    }
+
+    #[test]
+    fn roundtrip_custom_join_rule() {
+        let json = r#"{"join_rule":"org.example.custom"}"#;
+        let content: RoomJoinRulesEventContent = serde_json::from_str(json).unwrap();
+        assert_eq!(content.join_rule.as_str(), "org.example.custom");
+        assert_eq!(serde_json::to_string(&content).unwrap(), json);
     }
 
     #[test]
